@@ -878,3 +878,1198 @@ func RCatPred(c *core.Ctx) {
 		c.Anchor("the default arm of the category switch in charInCategories")
 	}
 }
+
+// R-LAZYFULL: "the slice is there" must mean "every element was built".
+func RLazyFull(c *core.Ctx) {
+	c.Rule("R-LAZYFULL", "for every slice field that is built lazily under `if x.F == nil { x.F = make(...) ... }`: each function that stores a freshly made slice into F also fills all of it (a loop over len(x.F) / range x.F assigning x.F[i]) before anyone can see it, and every other function that reads elements of F first passes a call of such a builder — otherwise a partly built slice is taken for a finished one by the nil test", 2)
+	p := c.P
+	type lazyField struct {
+		f        *types.Var
+		builders map[*types.Func]bool
+	}
+	fields := map[*types.Var]*lazyField{}
+	isMake := func(info *types.Info, e ast.Expr) bool {
+		call, ok := ast.Unparen(e).(*ast.CallExpr)
+		if !ok {
+			return false
+		}
+		id, ok := call.Fun.(*ast.Ident)
+		if !ok {
+			return false
+		}
+		_, isB := info.Uses[id].(*types.Builtin)
+		return isB && id.Name == "make"
+	}
+	pkgs := []string{"regexp2", "compat"}
+	// discover the idiom
+	for _, short := range pkgs {
+		pk := p.Pkg(short)
+		if pk == nil {
+			continue
+		}
+		info := pk.TypesInfo
+		for _, fd := range p.FuncDecls(pk) {
+			if fd.Body == nil || p.IsTestFile(fd.Pos()) {
+				continue
+			}
+			ast.Inspect(fd.Body, func(x ast.Node) bool {
+				ifs, ok := x.(*ast.IfStmt)
+				if !ok {
+					return true
+				}
+				be, ok := ast.Unparen(ifs.Cond).(*ast.BinaryExpr)
+				if !ok || be.Op != token.EQL || !isNilIdent(info, be.Y) {
+					return true
+				}
+				f := core.FieldOf(info, be.X)
+				if f == nil {
+					return true
+				}
+				if _, isSlice := f.Type().Underlying().(*types.Slice); !isSlice {
+					return true
+				}
+				for _, st := range ifs.Body.List {
+					as, ok := st.(*ast.AssignStmt)
+					if !ok || len(as.Lhs) != 1 || len(as.Rhs) != 1 {
+						continue
+					}
+					if core.FieldOf(info, as.Lhs[0]) == f && isMake(info, as.Rhs[0]) {
+						if fields[f] == nil {
+							fields[f] = &lazyField{f: f, builders: map[*types.Func]bool{}}
+						}
+					}
+				}
+				return true
+			})
+		}
+	}
+	if len(fields) == 0 {
+		c.Anchor("lazily built slice fields (if x.F == nil { x.F = make(...) })")
+		return
+	}
+	// (a) every store of a made slice into F is in a function that fills it
+	for _, short := range pkgs {
+		pk := p.Pkg(short)
+		if pk == nil {
+			continue
+		}
+		info := pk.TypesInfo
+		for _, fd := range p.FuncDecls(pk) {
+			if fd.Body == nil || p.IsTestFile(fd.Pos()) {
+				continue
+			}
+			fn, _ := info.Defs[fd.Name].(*types.Func)
+			name := core.DeclName(pk, fd)
+			ord := 0
+			ast.Inspect(fd.Body, func(x ast.Node) bool {
+				as, ok := x.(*ast.AssignStmt)
+				if !ok || len(as.Lhs) != 1 || len(as.Rhs) != 1 {
+					return true
+				}
+				f := core.FieldOf(info, as.Lhs[0])
+				lf := fields[f]
+				if lf == nil || !isMake(info, as.Rhs[0]) {
+					return true
+				}
+				subject := types.ExprString(as.Lhs[0])
+				// a loop over the whole slice that assigns subject[i]
+				fills := false
+				ast.Inspect(fd.Body, func(y ast.Node) bool {
+					var body *ast.BlockStmt
+					var idx string
+					switch l := y.(type) {
+					case *ast.ForStmt:
+						if be, ok := l.Cond.(*ast.BinaryExpr); ok && be.Op == token.LSS && types.ExprString(be.Y) == "len("+subject+")" {
+							if id, ok := be.X.(*ast.Ident); ok {
+								idx, body = id.Name, l.Body
+							}
+						}
+					case *ast.RangeStmt:
+						if types.ExprString(l.X) == subject {
+							if id, ok := l.Key.(*ast.Ident); ok {
+								idx, body = id.Name, l.Body
+							}
+						}
+					}
+					if body == nil || body.Pos() < as.End() {
+						return true
+					}
+					for _, st := range body.List {
+						if a2, ok := st.(*ast.AssignStmt); ok && len(a2.Lhs) == 1 {
+							if types.ExprString(a2.Lhs[0]) == subject+"["+idx+"]" {
+								fills = true
+							}
+						}
+					}
+					return true
+				})
+				ord++
+				c.Visit(name)
+				if fills && fn != nil {
+					lf.builders[fn] = true
+				}
+				c.Check(fills, fmt.Sprintf("%s / store of a fresh slice into %s #%d is followed by a loop that builds every element", name, f.Name(), ord), as.Pos(), "%s is allocated here but not filled in this function: readers that test `%s == nil` will take the partly built slice for a finished one", subject, f.Name())
+				return true
+			})
+		}
+	}
+	// (b) element reads elsewhere pass a builder first
+	for _, short := range pkgs {
+		pk := p.Pkg(short)
+		if pk == nil {
+			continue
+		}
+		info := pk.TypesInfo
+		for _, fd := range p.FuncDecls(pk) {
+			if fd.Body == nil || p.IsTestFile(fd.Pos()) {
+				continue
+			}
+			fn, _ := info.Defs[fd.Name].(*types.Func)
+			name := core.DeclName(pk, fd)
+			var g *core.Graph
+			ord := 0
+			ast.Inspect(fd.Body, func(x ast.Node) bool {
+				var sub ast.Expr
+				switch y := x.(type) {
+				case *ast.IndexExpr:
+					sub = y.X
+				case *ast.SliceExpr:
+					sub = y.X
+				case *ast.CallExpr:
+					if id, ok := y.Fun.(*ast.Ident); ok && id.Name == "copy" && len(y.Args) == 2 {
+						sub = y.Args[1]
+					}
+				}
+				if sub == nil {
+					return true
+				}
+				f := core.FieldOf(info, sub)
+				lf := fields[f]
+				if lf == nil || lf.builders[fn] {
+					return true
+				}
+				if g == nil {
+					g = core.NewGraph(info, fd.Body)
+				}
+				var bs []*types.Func
+				for b := range lf.builders {
+					bs = append(bs, b)
+				}
+				ord++
+				c.Visit(name)
+				b, i := g.BlockOf(x)
+				ok := b != nil && len(bs) > 0 && g.MustPassBefore(b, i, core.ContainsCallTo(info, bs...))
+				c.Check(ok, fmt.Sprintf("%s / read of %s #%d comes after the builder", name, f.Name(), ord), x.Pos(), "elements of the lazily built %s are read on a path that has not called the function that builds all of them", f.Name())
+				return true
+			})
+		}
+	}
+}
+
+// R-NAMEONCE: registering a name / number a second time changes nothing.
+func RNameOnce(c *core.Ctx) {
+	c.Rule("R-NAMEONCE", "in the parser's registration helpers (methods whose body is `if _, ok := p.<map>[key]; !ok { ... }`) every change of parser state — assignments to parser fields, map updates, calls of consumeAutocap / noteCaptureSlot — happens inside the first-occurrence branch; the only thing allowed outside is allocating the map itself. The main parse consumes a slot for a name only at its first occurrence (consumeCaptureSlot: capnum == autocap), so the pre-scan must too", 4)
+	p := c.P
+	syn := p.Pkg("syntax")
+	if syn == nil {
+		c.Anchor("package syntax")
+		return
+	}
+	info := syn.TypesInfo
+	pt, _ := syn.Types.Scope().Lookup("parser").(*types.TypeName)
+	if pt == nil {
+		c.Anchor("syntax.parser")
+		return
+	}
+	isParserExpr := func(e ast.Expr) bool {
+		t := info.TypeOf(e)
+		if t == nil {
+			return false
+		}
+		if pp, ok := t.(*types.Pointer); ok {
+			t = pp.Elem()
+		}
+		n, ok := types.Unalias(t).(*types.Named)
+		return ok && n.Obj() == pt
+	}
+	nFuncs := 0
+	for _, fd := range p.FuncDecls(syn) {
+		if fd.Body == nil || fd.Recv == nil || p.IsTestFile(fd.Pos()) {
+			continue
+		}
+		// the idiom: a top-level `if _, ok := p.M[k]; !ok {`
+		var guard *ast.IfStmt
+		var okObj types.Object
+		for _, st := range fd.Body.List {
+			ifs, ok := st.(*ast.IfStmt)
+			if !ok || ifs.Init == nil {
+				continue
+			}
+			as, ok := ifs.Init.(*ast.AssignStmt)
+			if !ok || len(as.Lhs) != 2 || len(as.Rhs) != 1 {
+				continue
+			}
+			ix, ok := ast.Unparen(as.Rhs[0]).(*ast.IndexExpr)
+			if !ok {
+				continue
+			}
+			sel, ok := ast.Unparen(ix.X).(*ast.SelectorExpr)
+			if !ok || !isParserExpr(sel.X) {
+				continue
+			}
+			if _, isMap := info.TypeOf(ix.X).Underlying().(*types.Map); !isMap {
+				continue
+			}
+			u, ok := ast.Unparen(ifs.Cond).(*ast.UnaryExpr)
+			if !ok || u.Op != token.NOT {
+				continue
+			}
+			id, ok := ast.Unparen(u.X).(*ast.Ident)
+			okId, ok2 := as.Lhs[1].(*ast.Ident)
+			if !ok || !ok2 || info.ObjectOf(id) != info.ObjectOf(okId) {
+				continue
+			}
+			guard, okObj = ifs, info.ObjectOf(id)
+		}
+		if guard == nil {
+			continue
+		}
+		_ = okObj
+		name := core.DeclName(syn, fd)
+		if !strings.Contains(fd.Name.Name, "note") && !strings.Contains(fd.Name.Name, "Note") {
+			continue
+		}
+		nFuncs++
+		c.Visit(name)
+		ord := 0
+		inGuard := func(n ast.Node) bool { return guard.Body.Pos() <= n.Pos() && n.End() <= guard.Body.End() }
+		ast.Inspect(fd.Body, func(x ast.Node) bool {
+			switch y := x.(type) {
+			case *ast.AssignStmt:
+				if y == guard.Init {
+					return true
+				}
+				for i, l := range y.Lhs {
+					var base ast.Expr
+					switch z := ast.Unparen(l).(type) {
+					case *ast.SelectorExpr:
+						base = z.X
+					case *ast.IndexExpr:
+						if s2, ok := ast.Unparen(z.X).(*ast.SelectorExpr); ok {
+							base = s2.X
+						}
+					}
+					if base == nil || !isParserExpr(base) {
+						continue
+					}
+					// allocating the map itself
+					if i < len(y.Rhs) {
+						if call, ok := ast.Unparen(y.Rhs[i]).(*ast.CallExpr); ok {
+							if id, ok := call.Fun.(*ast.Ident); ok && id.Name == "make" {
+								continue
+							}
+						}
+					}
+					ord++
+					c.Check(inGuard(y), fmt.Sprintf("%s / state change #%d is inside the first-occurrence branch", name, ord), y.Pos(), "`%s` is written whether or not the key was seen before", types.ExprString(l))
+				}
+			case *ast.IncDecStmt:
+				if s2, ok := ast.Unparen(y.X).(*ast.SelectorExpr); ok && isParserExpr(s2.X) {
+					ord++
+					c.Check(inGuard(y), fmt.Sprintf("%s / state change #%d is inside the first-occurrence branch", name, ord), y.Pos(), "`%s` changes whether or not the key was seen before", types.ExprString(y.X))
+				}
+			case *ast.CallExpr:
+				fn := core.Callee(info, y)
+				if fn == nil {
+					return true
+				}
+				if fn.Name() == "consumeAutocap" || fn.Name() == "noteCaptureSlot" || fn.Name() == "consumeCaptureSlot" {
+					ord++
+					c.Check(inGuard(y), fmt.Sprintf("%s / state change #%d is inside the first-occurrence branch", name, ord), y.Pos(), "%s() runs for every occurrence of the key: a repeated group name takes a slot in the pre-scan that the main parse never hands out", fn.Name())
+				}
+			}
+			return true
+		})
+	}
+	if nFuncs == 0 {
+		c.Anchor("registration helpers of the parser (note* methods with a first-occurrence guard)")
+	}
+}
+
+// R-TRUNC: rune -> byte conversions need an upper bound.
+func RTrunc(c *core.Ctx) {
+	c.Rule("R-TRUNC", "every conversion of a rune-typed value to byte / uint8 is dominated by a test that bounds the rune to one byte (x < K with K <= 256, x <= K with K <= 255, or a return on the opposite comparison), or converts back a value that came from a byte: a bare uint8(r) keeps the low byte of any rune, so 'ś' (U+015B) indexes or compares like '['", 3)
+	p := c.P
+	n := 0
+	fromByte := func(v ssa.Value) bool {
+		// rune(b) for a byte b, possibly through a call of a module function that returns its argument or a letter (foldASCII)
+		var walk func(v ssa.Value, d int) bool
+		walk = func(v ssa.Value, d int) bool {
+			if d > 4 {
+				return false
+			}
+			switch x := v.(type) {
+			case *ssa.Convert:
+				if b, ok := x.X.Type().Underlying().(*types.Basic); ok && b.Kind() == types.Uint8 {
+					return true
+				}
+			case *ssa.Call:
+				cal := x.Call.StaticCallee()
+				if cal == nil || !core.InModule(cal) || cal.Blocks == nil || len(x.Call.Args) != 1 || len(cal.Params) != 1 {
+					return false
+				}
+				if !walk(x.Call.Args[0], d+1) {
+					return false
+				}
+				// every return is the parameter, or the parameter plus a constant under a range test with letter bounds
+				for _, b := range cal.Blocks {
+					for _, ins := range b.Instrs {
+						ret, ok := ins.(*ssa.Return)
+						if !ok || len(ret.Results) != 1 {
+							continue
+						}
+						r := ret.Results[0]
+						if r == ssa.Value(cal.Params[0]) {
+							continue
+						}
+						if bo, ok := r.(*ssa.BinOp); ok && bo.Op == token.ADD && bo.X == ssa.Value(cal.Params[0]) {
+							if k, ok := core.IntConst(bo.Y); ok && k > 0 && k <= 32 {
+								// under `param <= 'Z'`-like fact
+								bounded := false
+								for _, f := range core.FactsAtBlock(b) {
+									x2, y2, op, ok := core.CmpNorm(f)
+									if !ok {
+										continue
+									}
+									if x2 == ssa.Value(cal.Params[0]) {
+										if kk, ok := core.IntConst(y2); ok && (op == token.LEQ || op == token.LSS) && kk <= 0x7f {
+											bounded = true
+										}
+									}
+								}
+								if bounded {
+									continue
+								}
+							}
+						}
+						return false
+					}
+				}
+				return true
+			}
+			return false
+		}
+		return walk(v, 0)
+	}
+	for _, fn := range p.ModuleFuncs() {
+		name := core.SSAName(fn)
+		ord := 0
+		for _, b := range fn.Blocks {
+			for _, ins := range b.Instrs {
+				cv, ok := ins.(*ssa.Convert)
+				if !ok {
+					continue
+				}
+				to, ok1 := cv.Type().Underlying().(*types.Basic)
+				from, ok2 := cv.X.Type().Underlying().(*types.Basic)
+				if !ok1 || !ok2 || to.Kind() != types.Uint8 || from.Kind() != types.Int32 {
+					continue
+				}
+				if _, isConst := cv.X.(*ssa.Const); isConst {
+					continue
+				}
+				ord++
+				n++
+				c.Visit(name)
+				bounded := fromByte(cv.X)
+				for _, f := range core.FactsAtBlock(b) {
+					x, y, op, ok := core.CmpNorm(f)
+					if !ok || !(core.SameValue(x, cv.X) || sameFieldLoadFn(fn, x, cv.X, false) || sameFieldLoadFn(fn, x, cv.X, true)) {
+						continue
+					}
+					if k, isC := core.IntConst(y); isC && ((op == token.LSS && k <= 256) || (op == token.LEQ && k <= 255)) {
+						bounded = true
+					}
+				}
+				c.Check(bounded, fmt.Sprintf("%s / rune converted to a byte #%d is bounded", name, ord), cv.Pos(), "no dominating upper bound (< 256) on the rune: the conversion keeps the low byte of any code point")
+			}
+		}
+	}
+	if n == 0 {
+		c.Anchor("rune -> byte conversions")
+	}
+}
+
+// sameFieldLoadFn: a and b are loads through the same chain of fields from the same root, and the
+// function stores to none of those fields (go/ssa does no CSE; loads in different blocks are
+// different values).  With firstLast, b may be the field `First` where a is the field `Last` of
+// the same struct: a range's First never exceeds its Last, so an upper bound on Last bounds First.
+func sameFieldLoadFn(fn *ssa.Function, a, b ssa.Value, firstLast bool) bool {
+	la, ok1 := a.(*ssa.UnOp)
+	lb, ok2 := b.(*ssa.UnOp)
+	if !ok1 || !ok2 || la.Op != token.MUL || lb.Op != token.MUL {
+		return false
+	}
+	var fieldsUsed []*types.Var
+	var same func(x, y ssa.Value, top bool) bool
+	same = func(x, y ssa.Value, top bool) bool {
+		if x == y {
+			return true
+		}
+		switch p := x.(type) {
+		case *ssa.FieldAddr:
+			q, ok := y.(*ssa.FieldAddr)
+			if !ok {
+				return false
+			}
+			fx, fy := core.FieldVarOfAddr(p), core.FieldVarOfAddr(q)
+			if fx == nil || fy == nil {
+				return false
+			}
+			if fx != fy {
+				if !(top && firstLast && fx.Name() == "Last" && fy.Name() == "First") {
+					return false
+				}
+			}
+			fieldsUsed = append(fieldsUsed, fx, fy)
+			return same(p.X, q.X, false)
+		case *ssa.UnOp:
+			q, ok := y.(*ssa.UnOp)
+			return ok && p.Op == token.MUL && q.Op == token.MUL && same(p.X, q.X, false)
+		}
+		return false
+	}
+	if !same(la.X, lb.X, true) {
+		return false
+	}
+	for _, blk := range fn.Blocks {
+		for _, ins := range blk.Instrs {
+			if st, ok := ins.(*ssa.Store); ok {
+				if f := core.FieldVarOfAddr(st.Addr); f != nil {
+					for _, u := range fieldsUsed {
+						if u == f {
+							return false
+						}
+					}
+				}
+			}
+		}
+	}
+	return true
+}
+
+// R-CACHEPAIR: a cache entry's key and payload change together.
+func RCachePair(c *core.Ctx) {
+	c.Rule("R-CACHEPAIR", "every function that stores the key field of a replacement-cache entry also stores the payload field of the same entry value (a composite literal does; re-labelling an existing entry with a new key must install the new data too) — otherwise a later hit on the new key returns the data of the key that used to live in that entry", 1)
+	p := c.P
+	key := p.LookupField("regexp2", "replacerDataCacheEntry", "key")
+	data := p.LookupField("regexp2", "replacerDataCacheEntry", "data")
+	if key == nil || data == nil {
+		c.Anchor("regexp2.replacerDataCacheEntry.key / data")
+		return
+	}
+	n := 0
+	for _, fn := range p.ModuleFuncs() {
+		name := core.SSAName(fn)
+		var keyStores []*ssa.Store
+		dataBases := map[ssa.Value]bool{}
+		for _, b := range fn.Blocks {
+			for _, ins := range b.Instrs {
+				st, ok := ins.(*ssa.Store)
+				if !ok {
+					continue
+				}
+				fa, ok := st.Addr.(*ssa.FieldAddr)
+				if !ok {
+					continue
+				}
+				switch core.FieldVarOfAddr(fa) {
+				case key:
+					keyStores = append(keyStores, st)
+				case data:
+					dataBases[fa.X] = true
+				}
+			}
+		}
+		for i, st := range keyStores {
+			n++
+			c.Visit(name)
+			base := st.Addr.(*ssa.FieldAddr).X
+			c.Check(dataBases[base], fmt.Sprintf("%s / store to entry.key #%d comes with a store to entry.data", name, i+1), st.Pos(), "the entry gets a new key but keeps the payload parsed for its previous key")
+		}
+	}
+	if n == 0 {
+		c.Anchor("stores to replacerDataCacheEntry.key")
+	}
+}
+
+// astFingerprint renders a subtree structurally, with local variables renamed in order of first
+// appearance (alpha-equivalence), so that two copies of the same algorithm compare equal
+// whatever their locals are called.
+func astFingerprint(info *types.Info, n ast.Node) string {
+	var sb strings.Builder
+	names := map[types.Object]string{}
+	ast.Inspect(n, func(x ast.Node) bool {
+		if x == nil {
+			sb.WriteString(")")
+			return true
+		}
+		fmt.Fprintf(&sb, "(%T", x)
+		switch y := x.(type) {
+		case *ast.Ident:
+			obj := info.ObjectOf(y)
+			if v, ok := obj.(*types.Var); ok && !v.IsField() && v.Parent() != nil && v.Parent() != v.Pkg().Scope() {
+				if _, seen := names[obj]; !seen {
+					names[obj] = fmt.Sprintf("v%d", len(names)+1)
+				}
+				sb.WriteString(" " + names[obj])
+			} else {
+				sb.WriteString(" " + y.Name)
+			}
+		case *ast.BasicLit:
+			sb.WriteString(" " + y.Value)
+		case *ast.BinaryExpr:
+			sb.WriteString(" " + y.Op.String())
+		case *ast.UnaryExpr:
+			sb.WriteString(" " + y.Op.String())
+		case *ast.AssignStmt:
+			sb.WriteString(" " + y.Tok.String())
+		case *ast.IncDecStmt:
+			sb.WriteString(" " + y.Tok.String())
+		case *ast.BranchStmt:
+			sb.WriteString(" " + y.Tok.String())
+		}
+		return true
+	})
+	return sb.String()
+}
+
+// R-COMPACTSIB: the two copies of the balancing-group compaction agree.
+func RCompactSib(c *core.Ctx) {
+	c.Rule("R-COMPACTSIB", "the compaction of balancing-group captures exists twice (Match.tidy and compactBalancedMatches, used by Replace on the runner's reused match); the per-group loops of the two are the same algorithm up to the names of locals — or one of them calls the other. A shortcut added to one copy only makes FindStringMatch and Replace disagree on the captures of the same match", 1)
+	p := c.P
+	root := p.Pkg("regexp2")
+	if root == nil {
+		c.Anchor("package regexp2")
+		return
+	}
+	info := root.TypesInfo
+	tidyFn := p.LookupFunc("regexp2", "Match.tidy")
+	compFn := p.LookupFunc("regexp2", "compactBalancedMatches")
+	tidy, _ := p.DeclOf(tidyFn)
+	comp, _ := p.DeclOf(compFn)
+	if tidy == nil || comp == nil {
+		c.Anchor("regexp2.Match.tidy / compactBalancedMatches")
+		return
+	}
+	c.Visit("regexp2.(*Match).tidy")
+	c.Visit("regexp2.compactBalancedMatches")
+	matchcount := p.LookupField("regexp2", "Match", "matchcount")
+	// the loop over groups: a ForStmt whose condition mentions len(<m>.matchcount)
+	groupLoop := func(fd *ast.FuncDecl) *ast.ForStmt {
+		var out *ast.ForStmt
+		ast.Inspect(fd.Body, func(x ast.Node) bool {
+			fs, ok := x.(*ast.ForStmt)
+			if !ok || out != nil || fs.Cond == nil {
+				return true
+			}
+			hit := false
+			ast.Inspect(fs.Cond, func(y ast.Node) bool {
+				if sel, ok := y.(*ast.SelectorExpr); ok && core.FieldOf(info, sel) == matchcount {
+					hit = true
+				}
+				return true
+			})
+			if hit {
+				out = fs
+			}
+			return true
+		})
+		return out
+	}
+	lc := groupLoop(comp)
+	if lc == nil {
+		c.Anchor("the loop over groups in compactBalancedMatches")
+		return
+	}
+	lt := groupLoop(tidy)
+	if lt == nil {
+		// tidy may delegate
+		if len(core.CallsIn(info, tidy.Body, compFn)) > 0 {
+			c.OK("tidy / compaction delegates to compactBalancedMatches", tidy.Pos(), "one implementation")
+			return
+		}
+		c.Anchor("the loop over groups in Match.tidy (or a call of compactBalancedMatches)")
+		return
+	}
+	a, b := astFingerprint(info, lt.Body), astFingerprint(info, lc.Body)
+	c.Check(a == b, "tidy / per-group compaction is the same algorithm as in compactBalancedMatches", lt.Pos(), "the two loop bodies differ structurally (fingerprint lengths %d vs %d): a match tidied by FindStringMatch and the same match compacted inside Replace would list different captures", len(a), len(b))
+}
+
+// R-MAPSTATE: per-match callbacks of the find-all drivers keep no cursor.
+func RMapState(c *core.Ctx) {
+	c.Rule("R-MAPSTATE", "the functions a find-all driver calls once per match (the func-typed arguments of findAllRunesIndex / forEachStringMatch and everything they call inside the module) store no integer into a field of an object that outlives the call, unless they consult the direction: matches arrive in descending order for right-to-left patterns, so a lookup that remembers where the previous one stopped answers differently in the two directions", 3)
+	p := c.P
+	var drivers []*ssa.Function
+	for _, nm := range [][2]string{{"regexp2", "Regexp.findAllRunesIndex"}, {"compat", "Regexp.forEachStringMatch"}} {
+		if fn := p.SSAFunc(p.LookupFunc(nm[0], nm[1])); fn != nil {
+			drivers = append(drivers, fn)
+		} else {
+			c.Anchor(nm[0] + "." + nm[1])
+			return
+		}
+	}
+	isDriver := map[*ssa.Function]bool{}
+	for _, d := range drivers {
+		isDriver[d] = true
+	}
+	roots := map[*ssa.Function]bool{}
+	for _, fn := range p.ModuleFuncs() {
+		for _, b := range fn.Blocks {
+			for _, ins := range b.Instrs {
+				ci, ok := ins.(ssa.CallInstruction)
+				if !ok {
+					continue
+				}
+				cal := ci.Common().StaticCallee()
+				if cal == nil || !isDriver[cal] {
+					continue
+				}
+				for _, a := range ci.Common().Args {
+					if _, isFn := a.Type().Underlying().(*types.Signature); !isFn {
+						continue
+					}
+					switch v := a.(type) {
+					case *ssa.MakeClosure:
+						if f, ok := v.Fn.(*ssa.Function); ok {
+							roots[f] = true
+						}
+					case *ssa.Function:
+						roots[v] = true
+					}
+				}
+			}
+		}
+	}
+	if len(roots) == 0 {
+		c.Anchor("func-typed arguments at the call sites of the find-all drivers")
+		return
+	}
+	reach := map[*ssa.Function]bool{}
+	var work []*ssa.Function
+	for r := range roots {
+		reach[r] = true
+		work = append(work, r)
+	}
+	for len(work) > 0 {
+		fn := work[len(work)-1]
+		work = work[:len(work)-1]
+		for _, b := range fn.Blocks {
+			for _, ins := range b.Instrs {
+				if ci, ok := ins.(ssa.CallInstruction); ok {
+					if cal := ci.Common().StaticCallee(); cal != nil && core.InModule(cal) && cal.Blocks != nil && !reach[cal] {
+						reach[cal] = true
+						work = append(work, cal)
+					}
+				}
+			}
+		}
+	}
+	var fns []*ssa.Function
+	for fn := range reach {
+		fns = append(fns, fn)
+	}
+	sortSSAFuncs(fns)
+	// what outlives one call: the variables the callbacks captured, and whatever is reached from them
+	persistent := map[ssa.Value]bool{}
+	for r := range roots {
+		for _, fv := range r.FreeVars {
+			persistent[fv] = true
+		}
+	}
+	for changed := true; changed; {
+		changed = false
+		mark := func(v ssa.Value) {
+			if v != nil && !persistent[v] {
+				persistent[v] = true
+				changed = true
+			}
+		}
+		for _, fn := range fns {
+			for _, b := range fn.Blocks {
+				for _, ins := range b.Instrs {
+					switch x := ins.(type) {
+					case *ssa.UnOp:
+						if x.Op == token.MUL && persistent[x.X] {
+							if _, isPtrOrRef := x.Type().Underlying().(*types.Basic); !isPtrOrRef {
+								mark(x)
+							}
+						}
+					case *ssa.FieldAddr:
+						if persistent[x.X] {
+							mark(x)
+						}
+					case *ssa.IndexAddr:
+						if persistent[x.X] {
+							mark(x)
+						}
+					case *ssa.Phi:
+						for _, e := range x.Edges {
+							if persistent[e] {
+								mark(x)
+							}
+						}
+					case *ssa.Store:
+						// a persistent pointer spilled to a local (captured by an inner closure): loads of the local give it back
+						if persistent[x.Val] {
+							if _, isPtr := x.Val.Type().Underlying().(*types.Pointer); isPtr {
+								mark(x.Addr)
+							}
+						}
+					case *ssa.MakeClosure:
+						if cf, ok := x.Fn.(*ssa.Function); ok {
+							for i, bnd := range x.Bindings {
+								if persistent[bnd] && i < len(cf.FreeVars) {
+									mark(cf.FreeVars[i])
+								}
+							}
+						}
+					case ssa.CallInstruction:
+						if cal := x.Common().StaticCallee(); cal != nil && reach[cal] {
+							for i, a := range x.Common().Args {
+								if persistent[a] && i < len(cal.Params) {
+									mark(cal.Params[i])
+								}
+							}
+						}
+					}
+				}
+			}
+		}
+	}
+	for _, fn := range fns {
+		name := core.SSAName(fn)
+		c.Visit(name)
+		consultsDir := false
+		var bad *ssa.Store
+		for _, b := range fn.Blocks {
+			for _, ins := range b.Instrs {
+				switch x := ins.(type) {
+				case ssa.CallInstruction:
+					if cal := x.Common().StaticCallee(); cal != nil && strings.EqualFold(cal.Name(), "RightToLeft") {
+						consultsDir = true
+					}
+				}
+				if fa, ok := ins.(*ssa.FieldAddr); ok {
+					if f := core.FieldVarOfAddr(fa); f != nil && strings.EqualFold(f.Name(), "rightToLeft") {
+						consultsDir = true
+					}
+				}
+				st, ok := ins.(*ssa.Store)
+				if !ok {
+					continue
+				}
+				fa, ok := st.Addr.(*ssa.FieldAddr)
+				if !ok {
+					continue
+				}
+				if bt, ok := st.Val.Type().Underlying().(*types.Basic); !ok || bt.Info()&types.IsInteger == 0 {
+					continue
+				}
+				if _, local := fa.X.(*ssa.Alloc); local {
+					continue
+				}
+				if !persistent[fa.X] {
+					continue // an object made during this call (a fresh Group / Capture being filled in)
+				}
+				if bad == nil {
+					bad = st
+				}
+			}
+		}
+		if bad != nil && !consultsDir {
+			f := core.FieldVarOfAddr(bad.Addr)
+			fname := "?"
+			if f != nil {
+				fname = f.Name()
+			}
+			c.Bad(name+" / keeps no integer state across per-match calls", bad.Pos(), "stores an integer into field %s of an object that outlives the call (a cursor / memo) without consulting the direction", fname)
+		} else {
+			c.OK(name+" / keeps no integer state across per-match calls", fn.Pos(), "no integer field store (or direction consulted)")
+		}
+	}
+}
+
+func sortSSAFuncs(fns []*ssa.Function) {
+	for i := 1; i < len(fns); i++ {
+		for j := i; j > 0 && (fns[j].Pos() < fns[j-1].Pos() || (fns[j].Pos() == fns[j-1].Pos() && fns[j].String() < fns[j-1].String())); j-- {
+			fns[j], fns[j-1] = fns[j-1], fns[j]
+		}
+	}
+}
+
+// R-NODEOPTS: nodes carry the option word in force where they were written.
+func RNodeOpts(c *core.Ctx) {
+	c.Rule("R-NODEOPTS", "every node the parser creates (newRegexNode* called from a method of parser) receives the parser's current option word p.options itself; the only accepted variation is `p.options &^ IgnoreCase` under a test that the text cannot be affected by case (isReplacement, !useOptionI(), anyParticipateInCaseConversion) — in particular the shorthand classes keep IgnoreCase: RE2 / ECMAScript \\w is ASCII-only and gains U+017F and U+212A by case folding", 40)
+	p := c.P
+	syn := p.Pkg("syntax")
+	if syn == nil {
+		c.Anchor("package syntax")
+		return
+	}
+	info := syn.TypesInfo
+	pt, _ := syn.Types.Scope().Lookup("parser").(*types.TypeName)
+	optField := p.LookupField("syntax", "parser", "options")
+	if pt == nil || optField == nil {
+		c.Anchor("syntax.parser / parser.options")
+		return
+	}
+	isCurrentOptions := func(fd *ast.FuncDecl, e ast.Expr) bool {
+		e = ast.Unparen(e)
+		if core.FieldOf(info, e) == optField {
+			return true
+		}
+		// a local assigned exactly once, from p.options
+		if id, ok := e.(*ast.Ident); ok {
+			obj := info.ObjectOf(id)
+			n, okAll := 0, true
+			ast.Inspect(fd.Body, func(x ast.Node) bool {
+				if as, ok := x.(*ast.AssignStmt); ok {
+					for i, l := range as.Lhs {
+						if lid, ok := l.(*ast.Ident); ok && info.ObjectOf(lid) == obj {
+							n++
+							if i >= len(as.Rhs) || core.FieldOf(info, as.Rhs[i]) != optField {
+								okAll = false
+							}
+						}
+					}
+				}
+				return true
+			})
+			return n == 1 && okAll
+		}
+		return false
+	}
+	n := 0
+	for _, fd := range p.FuncDecls(syn) {
+		if fd.Body == nil || fd.Recv == nil || p.IsTestFile(fd.Pos()) {
+			continue
+		}
+		recvT := info.TypeOf(fd.Recv.List[0].Type)
+		if pp, ok := recvT.(*types.Pointer); ok {
+			recvT = pp.Elem()
+		}
+		if nn, ok := types.Unalias(recvT).(*types.Named); !ok || nn.Obj() != pt {
+			continue
+		}
+		name := core.DeclName(syn, fd)
+		var g *core.Graph
+		ord := 0
+		ast.Inspect(fd.Body, func(x ast.Node) bool {
+			call, ok := x.(*ast.CallExpr)
+			if !ok {
+				return true
+			}
+			fn := core.Callee(info, call)
+			if fn == nil || !strings.HasPrefix(fn.Name(), "newRegexNode") || len(call.Args) < 2 {
+				return true
+			}
+			ord++
+			n++
+			c.Visit(name)
+			arg := ast.Unparen(call.Args[1])
+			key := fmt.Sprintf("%s / node #%d is created with the current options", name, ord)
+			if isCurrentOptions(fd, arg) {
+				c.OK(key, call.Pos(), "p.options")
+				return true
+			}
+			// p.options &^ IgnoreCase under a case-freeness test
+			if be, ok := arg.(*ast.BinaryExpr); ok && be.Op == token.AND_NOT && isCurrentOptions(fd, be.X) {
+				if id, ok := ast.Unparen(be.Y).(*ast.Ident); ok && id.Name == "IgnoreCase" {
+					if g == nil {
+						g = core.NewGraph(info, fd.Body)
+					}
+					caseFree := false
+					mentions := func(e ast.Expr) bool {
+						found := false
+						ast.Inspect(e, func(y ast.Node) bool {
+							switch z := y.(type) {
+							case *ast.Ident:
+								if z.Name == "isReplacement" {
+									found = true
+								}
+							case *ast.CallExpr:
+								if f2 := core.Callee(info, z); f2 != nil && (f2.Name() == "useOptionI" || strings.Contains(f2.Name(), "articipateInCaseConversion")) {
+									found = true
+								}
+							}
+							return true
+						})
+						return found
+					}
+					if b, _ := g.BlockOf(call); b != nil {
+						for _, f := range g.FactsAt(b) {
+							if mentions(f.Cond) {
+								caseFree = true
+							}
+						}
+					}
+					c.Check(caseFree, key, call.Pos(), "`%s` drops IgnoreCase from the node without a dominating test that case cannot matter for this text", types.ExprString(arg))
+					return true
+				}
+			}
+			c.Bad(key, call.Pos(), "the node is created with `%s`, not with the option word in force at this point of the pattern", types.ExprString(arg))
+			return true
+		})
+	}
+	if n == 0 {
+		c.Anchor("newRegexNode* calls in parser methods")
+	}
+}
+
+// R-PARSERFRESH: one parser per parse.
+func RParserFresh(c *core.Ctx) {
+	c.Rule("R-PARSERFRESH", "a parser is made for one parse and thrown away: every parser value comes from a composite literal in the function that uses it; none is taken from a sync.Pool, kept in a package-level variable or in a field of a longer-lived object. The parser has one-shot state (ignoreNextParen, the option stack, capture bookkeeping) that a rejected pattern leaves set, so a recycled parser makes the meaning of the next pattern depend on the previous one", 3)
+	p := c.P
+	syn := p.Pkg("syntax")
+	if syn == nil {
+		c.Anchor("package syntax")
+		return
+	}
+	pt, _ := syn.Types.Scope().Lookup("parser").(*types.TypeName)
+	if pt == nil {
+		c.Anchor("syntax.parser")
+		return
+	}
+	mentionsParser := func(t types.Type) bool {
+		found := false
+		var walk func(t types.Type, d int)
+		walk = func(t types.Type, d int) {
+			if d > 5 || found || t == nil {
+				return
+			}
+			switch u := types.Unalias(t).(type) {
+			case *types.Named:
+				if u.Obj() == pt {
+					found = true
+				}
+			case *types.Pointer:
+				walk(u.Elem(), d+1)
+			case *types.Slice:
+				walk(u.Elem(), d+1)
+			case *types.Array:
+				walk(u.Elem(), d+1)
+			case *types.Map:
+				walk(u.Key(), d+1)
+				walk(u.Elem(), d+1)
+			case *types.Chan:
+				walk(u.Elem(), d+1)
+			}
+		}
+		walk(t, 0)
+		return found
+	}
+	info := syn.TypesInfo
+	// (1) composite literals: where parsers are made
+	nLit := 0
+	for _, fd := range p.FuncDecls(syn) {
+		if fd.Body == nil || p.IsTestFile(fd.Pos()) {
+			continue
+		}
+		name := core.DeclName(syn, fd)
+		ast.Inspect(fd.Body, func(x ast.Node) bool {
+			cl, ok := x.(*ast.CompositeLit)
+			if !ok {
+				return true
+			}
+			if n, ok := types.Unalias(info.TypeOf(cl)).(*types.Named); ok && n.Obj() == pt {
+				nLit++
+				c.Visit(name)
+				c.OK(fmt.Sprintf("%s / makes its own parser #%d", name, nLit), cl.Pos(), "composite literal")
+			}
+			return true
+		})
+	}
+	if nLit == 0 {
+		c.Anchor("composite literals of syntax.parser")
+	}
+	// (2) no package-level variable, no struct field (outside parser itself) holds a parser
+	for _, pk := range p.ModulePkgs() {
+		sc := pk.Types.Scope()
+		for _, nm := range sc.Names() {
+			switch o := sc.Lookup(nm).(type) {
+			case *types.Var:
+				c.Check(!mentionsParser(o.Type()), "package-level variable "+pk.Types.Name()+"."+nm+" does not hold a parser", o.Pos(), "a parser kept in a package-level variable is shared between parses")
+			case *types.TypeName:
+				if st, ok := o.Type().Underlying().(*types.Struct); ok && o != pt {
+					for i := 0; i < st.NumFields(); i++ {
+						if mentionsParser(st.Field(i).Type()) {
+							c.Bad("field "+pk.Types.Name()+"."+nm+"."+st.Field(i).Name()+" does not hold a parser", st.Field(i).Pos(), "a parser stored in a longer-lived object is reused between parses")
+						}
+					}
+				}
+			}
+		}
+	}
+	// (3) no parser comes out of an interface (sync.Pool.Get().(*parser)) or goes into one
+	for _, fn := range p.ModuleFuncs() {
+		name := core.SSAName(fn)
+		for _, b := range fn.Blocks {
+			for _, ins := range b.Instrs {
+				switch x := ins.(type) {
+				case *ssa.TypeAssert:
+					if mentionsParser(x.AssertedType) {
+						c.Bad(name+" / a parser is taken out of an interface value", x.Pos(), "type assertion to %s: parsers obtained from a pool or registry carry the state of their previous use", x.AssertedType)
+					}
+				case *ssa.MakeInterface:
+					if mentionsParser(x.X.Type()) {
+						c.Bad(name+" / a parser is put into an interface value", x.Pos(), "a parser is stored away (pool, any): %s", x.X.Type())
+					}
+				}
+			}
+		}
+	}
+}
+
+// R-OPTMEMO: nothing scanned under the current options is memoised by pattern text.
+func ROptMemo(c *core.Ctx) {
+	c.Rule("R-OPTMEMO", "what the parser's scanners return under the option word in force (a *CharSet from scanCharSet, a *RegexNode from scanBackslash / scanBasicBackslash / scanRegex ...) is never stored into a map held by the parser: the same source text means a different set inside (?i:...) and outside it, so a memo keyed by text carries one scope's options into another", 1)
+	p := c.P
+	syn := p.Pkg("syntax")
+	if syn == nil {
+		c.Anchor("package syntax")
+		return
+	}
+	pt, _ := syn.Types.Scope().Lookup("parser").(*types.TypeName)
+	if pt == nil {
+		c.Anchor("syntax.parser")
+		return
+	}
+	isParserPtr := func(t types.Type) bool {
+		if pp, ok := t.Underlying().(*types.Pointer); ok {
+			t = pp.Elem()
+		}
+		n, ok := types.Unalias(t).(*types.Named)
+		return ok && n.Obj() == pt
+	}
+	isTreeType := func(t types.Type) bool {
+		if pp, ok := t.Underlying().(*types.Pointer); ok {
+			if n, ok := types.Unalias(pp.Elem()).(*types.Named); ok && n.Obj().Pkg() == syn.Types {
+				return n.Obj().Name() == "CharSet" || n.Obj().Name() == "RegexNode"
+			}
+		}
+		return false
+	}
+	nMaps, nBad := 0, 0
+	// containers among the parser's own fields
+	if st, ok := pt.Type().Underlying().(*types.Struct); ok {
+		for i := 0; i < st.NumFields(); i++ {
+			f := st.Field(i)
+			var elem types.Type
+			switch u := f.Type().Underlying().(type) {
+			case *types.Slice:
+				elem = u.Elem()
+			case *types.Map:
+				elem = u.Elem()
+			}
+			if elem == nil {
+				continue
+			}
+			nMaps++
+			holds := false
+			var walk func(t types.Type, d int)
+			walk = func(t types.Type, d int) {
+				if d > 3 || holds {
+					return
+				}
+				if isTreeType(t) {
+					holds = true
+					return
+				}
+				if n, ok := types.Unalias(t).(*types.Named); ok && n.Obj().Pkg() == syn.Types && (n.Obj().Name() == "CharSet" || n.Obj().Name() == "RegexNode") {
+					holds = true
+					return
+				}
+				switch u := t.Underlying().(type) {
+				case *types.Struct:
+					for j := 0; j < u.NumFields(); j++ {
+						walk(u.Field(j).Type(), d+1)
+					}
+				case *types.Pointer:
+					walk(u.Elem(), d+1)
+				case *types.Slice:
+					walk(u.Elem(), d+1)
+				}
+			}
+			walk(elem, 0)
+			if holds {
+				nBad++
+				c.Bad(fmt.Sprintf("parser.%s / a container of scanned sets or nodes lives in the parser", f.Name()), f.Pos(), "field %s of type %s keeps scanned sets / nodes for the length of the parse: a lookup by source text reuses what was built under another option scope", f.Name(), f.Type())
+			}
+		}
+	}
+	for _, fn := range p.ModuleFuncs() {
+		if core.FnPkgPath(fn) != core.PkgSyntax {
+			continue
+		}
+		name := core.SSAName(fn)
+		for _, b := range fn.Blocks {
+			for _, ins := range b.Instrs {
+				mu, ok := ins.(*ssa.MapUpdate)
+				if !ok {
+					continue
+				}
+				// the map is a field of the parser
+				ld, ok := mu.Map.(*ssa.UnOp)
+				if !ok {
+					continue
+				}
+				fa, ok := ld.X.(*ssa.FieldAddr)
+				if !ok || !isParserPtr(fa.X.Type()) {
+					continue
+				}
+				nMaps++
+				c.Visit(name)
+				// does the stored value contain a *CharSet / *RegexNode (directly or as a struct field)?
+				holdsTree := false
+				var walk func(t types.Type, d int)
+				walk = func(t types.Type, d int) {
+					if d > 3 || holdsTree {
+						return
+					}
+					if isTreeType(t) {
+						holdsTree = true
+						return
+					}
+					switch u := t.Underlying().(type) {
+					case *types.Struct:
+						for i := 0; i < u.NumFields(); i++ {
+							walk(u.Field(i).Type(), d+1)
+						}
+					case *types.Pointer:
+						walk(u.Elem(), d+1)
+					case *types.Slice:
+						walk(u.Elem(), d+1)
+					}
+				}
+				walk(mu.Value.Type(), 0)
+				if holdsTree {
+					nBad++
+					f := core.FieldVarOfAddr(fa)
+					fname := "?"
+					if f != nil {
+						fname = f.Name()
+					}
+					c.Bad(fmt.Sprintf("%s / a scanned set or node is memoised in parser.%s #%d", name, fname, nBad), mu.Pos(), "a value of type %s is stored into a map of the parser: the result of scanning under one option scope would be reused under another", mu.Value.Type())
+				}
+			}
+		}
+	}
+	if nMaps == 0 {
+		c.Anchor("map updates on fields of the parser (capture bookkeeping)")
+		return
+	}
+	if nBad == 0 {
+		c.OK("parser / no memo of option-dependent scan results", token.NoPos, "%d map updates on parser fields examined; none stores a *CharSet / *RegexNode", nMaps)
+	}
+}
